@@ -4,7 +4,7 @@ playing time and judged by the same observer (T)."""
 from props.tapecommon import *
 
 PID = "C12"
-KINDS = {"waveform", "wholetape", "frozen", "taperr"}
+KINDS = {"waveform", "wholetape", "frozen", "taperr", "stopignored"}
 
 
 def mc_runs(quick):
